@@ -56,7 +56,7 @@ struct Counters
 {
 	uint64_t plans, ops, dispatches, queuedDispatches, filterCalls, filterBlocked, filterModified, filtersRemovedFromFilter, listenerCalls, mixCalls, mixBlocked,
 		stoppedByPolicy, conditionTrue, conditionFalse, adaptedCalls, sharedAdaptedCalls, copies, faultRuns, faultsInjected, faultsByKind[F_KINDS], opsFailedByFault;
-	uint64_t perVariant[V_COUNT + 1];
+	uint64_t perVariant[V_COUNT + 2];
 };
 extern Counters counters;
 
@@ -105,6 +105,13 @@ struct Pol0 { typedef eventpp::MixinList<eventpp::MixinFilter> Mixins; };
 struct Pol1 { typedef eventpp::MixinList<MixA, eventpp::MixinFilter, MixB> Mixins; };
 struct Pol3 { typedef eventpp::MixinList<eventpp::MixinHeterFilter> Mixins; };
 
+// a mixin WITHOUT mixinBeforeDispatch (the documentation calls the interceptor optional), listed before MixinFilter
+template <typename Base>
+struct PlainMix : Base
+{
+};
+struct PolPlain { typedef eventpp::MixinList<PlainMix, eventpp::MixinFilter> Mixins; };
+
 // ---------------------------------------------------------------- filter configurations
 struct CfgDisp
 {
@@ -122,6 +129,19 @@ struct CfgDispMix
 	typedef eventpp::EventDispatcher<int, void (int, Payload), Pol1> D;
 	typedef D::Handle Handle; typedef D::FilterHandle FHandle;
 	enum { queue = 0, mixes = 1, conv = 0 };
+	static FHandle addFilter(D & d, const FilterFn & f) { return d.appendFilter(f); }
+	static bool removeFilter(D & d, const FHandle & h) { return d.removeFilter(h); }
+	static Handle addListener(D & d, int k, int how, const ListenerFn & f) { return how ? d.prependListener(k, f) : d.appendListener(k, f); }
+	static bool removeListener(D & d, int k, const Handle & h) { return d.removeListener(k, h); }
+	static void dispatch(D & d, int k, int a, int pv, bool temps, bool) { if(temps) d.dispatch(k, a + 0, Payload(4000, pv)); else { Payload p(4000, pv); d.dispatch(k, a, p); } }
+};
+// A second recorded, unrepaired defect (known_findings.txt): with MixinList<PlainMix, MixinFilter> the filters run TWICE per dispatch - the
+// interceptor is looked up in the cumulative class of every mixin level, and PlainMix<MixinFilter<Root>> inherits MixinFilter's.
+struct CfgDispPlain
+{
+	typedef eventpp::EventDispatcher<int, void (int, Payload), PolPlain> D;
+	typedef D::Handle Handle; typedef D::FilterHandle FHandle;
+	enum { queue = 0, mixes = 0, conv = 2 };
 	static FHandle addFilter(D & d, const FilterFn & f) { return d.appendFilter(f); }
 	static bool removeFilter(D & d, const FHandle & h) { return d.removeFilter(h); }
 	static Handle addListener(D & d, int k, int how, const ListenerFn & f) { return how ? d.prependListener(k, f) : d.appendListener(k, f); }
@@ -281,7 +301,12 @@ struct FilterInterp : Sink
 	}
 	bool condition(int, int, int) override { return true; }
 	// the conversion variant documents ONE recorded defect: whatever shape it takes in a given history, it is reported under one class
-	void relabel() { if(C::conv && viol.set && (viol.cls == "unexpected-filter" || viol.cls == "filter-skipped" || viol.cls == "listener-before-filters")) viol.cls = "heter-filters-of-another-prototype"; }
+	void relabel()
+	{
+		if(!viol.set) return;
+		if(C::conv == 1 && (viol.cls == "unexpected-filter" || viol.cls == "filter-skipped" || viol.cls == "listener-before-filters")) viol.cls = "heter-filters-of-another-prototype";
+		if(C::conv == 2 && (viol.cls == "unexpected-filter" || viol.cls == "filter-after-block" || viol.cls == "argument-mismatch")) viol.cls = "filters-run-twice-behind-a-plain-mixin";
+	}
 
 	void doRemoveFilter(int slot)
 	{
@@ -351,7 +376,7 @@ struct FilterInterp : Sink
 			const bool queued = op.k == O_QDISPATCH && C::queue;
 			++counters.dispatches; if(queued) ++counters.queuedDispatches;
 			curA = op.a; curP = op.b; curKey = k;
-			fsnap.clear(); for(size_t i = 0; i < filters.size(); ++i) if(!C::conv || filters[i].id % 2 == 0) fsnap.push_back(filters[i].id);
+			fsnap.clear(); for(size_t i = 0; i < filters.size(); ++i) if(C::conv != 1 || filters[i].id % 2 == 0) fsnap.push_back(filters[i].id);
 			lsnap = listeners[k];
 			fpos = 0; lpos = 0; blocked = false; stage = 0; inDispatch = true;
 			try { FaultArm arm; C::dispatch(*disp, k, op.a, op.b, (op.c & 1) != 0, queued); }
@@ -755,6 +780,8 @@ void runVariant4(const Plan & p, RunOut & o) { runInterp<ContInterp>(p, o); }
 void runVariant5(const Plan & p, RunOut & o) { runInterp<WrapInterp>(p, o); }
 #elif SEQ_VARIANT == 6
 void runVariant6(const Plan & p, RunOut & o) { runInterp<FilterInterp<CfgHeterConv> >(p, o); }
+#elif SEQ_VARIANT == 7
+void runVariant7(const Plan & p, RunOut & o) { runInterp<FilterInterp<CfgDispPlain> >(p, o); }
 #endif
 
 } // namespace sf
@@ -766,7 +793,7 @@ Sink * g_sink = nullptr;
 Counters counters;
 void runVariant0(const Plan &, RunOut &); void runVariant1(const Plan &, RunOut &); void runVariant2(const Plan &, RunOut &);
 void runVariant3(const Plan &, RunOut &); void runVariant4(const Plan &, RunOut &); void runVariant5(const Plan &, RunOut &);
-void runVariant6(const Plan &, RunOut &);
+void runVariant6(const Plan &, RunOut &); void runVariant7(const Plan &, RunOut &);
 }
 
 namespace engine {
@@ -782,7 +809,7 @@ void generate(uint64_t seed, Plan & plan)
 	Rng rng(seed);
 	plan.setSchedSeed(rng.next());
 	// mode c12k: only the conversion variant of the heterogeneous dispatcher (variant 6), which documents a recorded, unrepaired defect
-	const int variant = mode == "c12k" ? 6 : mode == "c10" ? (int)rng.below(4) : (int)rng.below(V_COUNT);
+	const int variant = mode == "c12k" ? 6 : mode == "c12p" ? 7 : mode == "c10" ? (int)rng.below(4) : (int)rng.below(V_COUNT);
 	plan.user(U_VARIANT) = variant;
 	plan.tasks.assign(1, OpList());
 	OpList & ops = plan.tasks[0];
@@ -794,7 +821,7 @@ void generate(uint64_t seed, Plan & plan)
 		const int k = (int)rng.below(variant == 4 ? NKEY + 1 : NKEY);
 		int slot = 0;
 		if(!known.empty()) slot = known[rng.below((uint32_t)known.size())];
-		if(variant <= 3 || variant == 6) {
+		if(variant <= 3 || variant >= 6) {
 			if(r < 20 && nextId < MAXSLOT - 2) {
 				const int pattern = rng.chance(2, 3) ? 255 : (int)rng.below(256);
 				const int delta = rng.chance(1, 2) ? 1 + (int)rng.below(4) : 0;
@@ -827,10 +854,10 @@ void execute(const Plan & plan, RunOut & out)
 	const int v = plan.user(sf::U_VARIANT);
 	switch(v) {
 	case 0: sf::runVariant0(plan, out); break; case 1: sf::runVariant1(plan, out); break; case 2: sf::runVariant2(plan, out); break;
-	case 3: sf::runVariant3(plan, out); break; case 4: sf::runVariant4(plan, out); break; case 6: sf::runVariant6(plan, out); break; default: sf::runVariant5(plan, out); break;
+	case 3: sf::runVariant3(plan, out); break; case 4: sf::runVariant4(plan, out); break; case 6: sf::runVariant6(plan, out); break; case 7: sf::runVariant7(plan, out); break; default: sf::runVariant5(plan, out); break;
 	}
 	++sf::counters.plans;
-	if(v >= 0 && v <= sf::V_COUNT) ++sf::counters.perVariant[v];
+	if(v >= 0 && v <= sf::V_COUNT + 1) ++sf::counters.perVariant[v];
 	bool focus = false;
 	if(!plan.tasks.empty()) for(size_t i = 0; i < plan.tasks[0].size(); ++i) if(plan.tasks[0][i].k == sf::O_DISPATCH || plan.tasks[0][i].k == sf::O_QDISPATCH) focus = true;
 	out.nontrivial = focus;
@@ -840,11 +867,12 @@ std::string describe(const Plan & plan)
 {
 	static const char * vn[] = { "EventDispatcher+MixinFilter", "EventDispatcher+MixinList<MixA,MixinFilter,MixB>", "EventQueue+MixinFilter", "HeterEventDispatcher+MixinHeterFilter",
 		"canContinueInvoking on CallbackList/EventDispatcher", "conditionalFunctor/argumentAdapter listeners",
-		"HeterEventDispatcher<{void(long,Payload), void(int,Payload)}>+MixinHeterFilter, int arguments" };
+		"HeterEventDispatcher<{void(long,Payload), void(int,Payload)}>+MixinHeterFilter, int arguments",
+		"EventDispatcher+MixinList<PlainMix (no interceptor), MixinFilter>" };
 	static const char * names[] = { "?", "addFilter", "removeFilter", "addListener", "removeListener", "dispatch", "queuedDispatch", "setMixinVerdict", "continueWithCopy", "continueWithCopyAssigned" };
 	std::ostringstream o;
 	const int v = plan.user(sf::U_VARIANT);
-	o << (v >= 0 && v <= sf::V_COUNT ? vn[v] : "?") << " :";
+	o << (v >= 0 && v <= sf::V_COUNT + 1 ? vn[v] : "?") << " :";
 	if(!plan.tasks.empty()) for(size_t i = 0; i < plan.tasks[0].size(); ++i) {
 		const Op & op = plan.tasks[0][i];
 		o << " " << (op.k >= 1 && op.k < sf::O_KINDS ? names[op.k] : "?");
